@@ -171,8 +171,9 @@ DEntry(D, cap, m, k, v, w, fresh, res) ==     \* fresh = tag of the object V::de
       full == Cardinality(D) >= cap
       takesV == m \in {"or_insert", "or_insert_with", "or_insert_with_key", "and_modify", "occ_insert", "vac_insert"}
       vdead == IF takesV THEN {v.vt} ELSE {}
-      Ins(val, ret) == IF full THEN Out(res, <<"panic">>, D, {k.kt}, {val.vt})
-                       ELSE Out(res, ret, D \cup {DE(k, val)}, {}, {})
+      InsP(val, ret, pret) == IF full THEN Out(res, pret, D, {k.kt}, {val.vt})
+                              ELSE Out(res, ret, D \cup {DE(k, val)}, {}, {})
+      Ins(val, ret) == InsP(val, ret, <<"panic">>)
   IN
   CASE m = "key" -> Out(res, IF occ THEN <<"occk">> \o DJKey(e) ELSE <<"vack", k.kt, k.c, k.r>>, D, {k.kt}, {})
     [] m = "or_insert" ->
@@ -180,10 +181,10 @@ DEntry(D, cap, m, k, v, w, fresh, res) ==     \* fresh = tag of the object V::de
          ELSE Ins(v, <<"vac", v.vt, v.v>>)
     [] m = "or_insert_with" ->
          IF occ THEN Out(res, <<"occ">> \o DJVal(e) \o <<0>>, D, {k.kt}, {v.vt})
-         ELSE Ins(v, <<"vac", v.vt, v.v, 1>>)
+         ELSE InsP(v, <<"vac", v.vt, v.v, 1>>, <<"panic", 1>>)     \* closure exactly once iff vacant, also when the insert then overflows
     [] m = "or_insert_with_key" ->
          IF occ THEN Out(res, <<"occ">> \o DJVal(e) \o <<0, 0, 0, 0>>, D, {k.kt}, {v.vt})
-         ELSE Ins(v, <<"vac", v.vt, v.v, 1, k.kt, k.c, k.r>>)
+         ELSE InsP(v, <<"vac", v.vt, v.v, 1, k.kt, k.c, k.r>>, <<"panic", 1>>)
     [] m = "or_default" ->
          IF occ THEN Out(res, <<"occ">> \o DJVal(e), D, {k.kt}, {})
          ELSE Ins([vt |-> fresh, v |-> 0], <<"vac", fresh, 0>>)
